@@ -10,6 +10,7 @@ import (
 
 func main() {
 	r := vlib.Start("C05", "exploration")
+	r.ScaleQuick(3) // quick tier: 3x the case counts written at the sections (still well under a minute)
 	r.Rule("seeded transforms (Translate, positive Scale, VecScale incl. negative/anisotropic, general matrices with Frobenius condition <= 1e4, Rotation incl. axis-aligned and tie axes, JoinedTransform of 0-5 parts nested to depth 2, AxisSqueeze, AxisPinch, SmartSqueeze.Transform) in 2D and 3D, hostile points (kinks, box corners, large/small magnitudes), rays with non-unit directions and origins inside/outside; every wrapped-object query is decided against a closed-form reference map written in the harness and against the unwrapped object; a case is non-trivial if the transform moves some test point by more than 1e-6 relative; distinct by hash of dimension + transform parameters (+ wrapped object kind)")
 	r.Assume("float64 rounding: laws are held to 1e-9 x (magnitude of intermediates) x (product of local Lipschitz constants of the stages, from the reference map) x (matrix condition bound); cases amplified beyond 1e7 are undecided")
 	r.Assume("negative uniform Scale is not documented and not generated; JoinedTransform.ApplyDistance is only called when every part is a DistTransform (documented panic otherwise)")
